@@ -109,6 +109,7 @@ var genericScopes = map[string]genericScope{
 	"C13": {"R13.4", "R13.5", modset("locker", "collector"), 100, 4},
 	"C14": {"R14.7", "", modset("esm", "market"), 60, 0},
 	"C19": {"R19.7", "", modset("rewards"), 90, 0},
+	"C17": {"R17.7", "", modset("bandoracle", "market"), 1, 0},
 }
 
 func genericFor(id string, p *Prog, r *Report) {
@@ -128,6 +129,9 @@ func genericFor(id string, p *Prog, r *Report) {
 		discardedArithmeticRule(p, r, ms.rule2, ms.mods, 5)
 	}
 	switch id {
+	case "C19":
+		selfDecrementRule(p, r, "R19.9", modset("rewards"), "AvailableRewards", 3)
+		reserveSideRule(p, r, "R19.10", 4)
 	case "C07":
 		freshOrderIndexedRule(p, r, "R07.9", 2)
 	case "C04":
@@ -136,6 +140,7 @@ func genericFor(id string, p *Prog, r *Report) {
 	case "C06":
 		denomLinkRule(p, r, "R06.5", modset("liquidity"), 4)
 		executeOnceRule(p, r, "R06.6", 4)
+		reserveSideRule(p, r, "R06.8", 4)
 	case "C01":
 		recordLinkRule(p, r, "R01.9", modset("vault"), 15)
 	case "C02":
